@@ -273,6 +273,9 @@ class NDArray:
     def _lazy_map(self, fn, cond):
         return self._rows()._lazy_map(fn, cond)
 
+    def _concrete_len(self):
+        return bool(self.shape) and not is_sym(self.shape[0])
+
     def _rows(self):
         return SymSeq(self.shape[0], lambda k: self._getitem_norm((k,)), 'rows')
 
@@ -1360,9 +1363,24 @@ def selection_of_mask(mask: NDArray) -> Selection:
     return sel
 
 
+def _concrete_bools(a):
+    if a.ndim != 1 or is_sym(a.shape[0]) or a.shape[0] > 64:
+        return None
+    vals = [truthy(a.fn((k,))) for k in range(a.shape[0])]
+    if all(isinstance(v, bool) for v in vals):
+        return vals
+    return None
+
+
 def flatnonzero(a):
     used('NP-FLATNONZERO')
     a = asarray(a)
+    cb = _concrete_bools(a)
+    if cb is not None:
+        idx = [k for k, v in enumerate(cb) if v]
+        r = NDArray((len(idx),), lambda i: _pick(idx, i[0]), INT64)
+        r.sorted_unique = False
+        return r
     sel = selection_of_mask(a)
     r = NDArray((sel.count,), lambda i: sel.sel(i[0]), INT64)
     r.selection = sel
@@ -1757,6 +1775,10 @@ def ma_is_masked(x):
     return False
 
 
+def np_equal(a, b):
+    return elementwise2(a, b, s_eq, BOOL)
+
+
 def np_array(obj, dtype=None, **kw):
     used('NP-ARRAY')
     a = asarray(obj, dtype)
@@ -1851,6 +1873,7 @@ class NumpyModule:
     floating = ScalarType(None, 'floating')
     number = ScalarType(None, 'number')
     array = staticmethod(np_array)
+    equal = staticmethod(np_equal)
     asarray = staticmethod(np_array)
     stack = staticmethod(stack)
     concatenate = staticmethod(concatenate)
